@@ -202,6 +202,18 @@ def Fld.meta : Fld → FieldMeta
 def Fld.ty : Fld → Ty
   | .mk _ t => t
 
+/-- `Field(deprecated=…)`: `False`, `True`, or the name of the field that replaces this one -/
+inductive Dep where
+  | no | yes | to (name : String)
+  deriving DecidableEq, Repr, Inhabited
+
+/-- `bool(deprecated)` (field.py `self.deprecated = bool(deprecated)`): what the generator publishes; the string form
+only sets `deprecated_to` -/
+def Dep.truthy : Dep → Bool
+  | .no => false
+  | .yes => true
+  | .to s => s != ""
+
 /-- a field as declared: the arguments of `Field(...)` plus what the class body says about it -/
 structure RawField where
   attname : String
@@ -220,7 +232,7 @@ structure RawField where
   deps : List String
   title : Option String
   description : Option String
-  deprecated : Bool
+  deprecated : Dep
   exampleV : Option Json
   deriving Repr, Inhabited
 
@@ -238,7 +250,7 @@ def normField (r : RawField) : FieldMeta :=
     match r.required with
     | some (.modes s) => .modes s
     | some q => if r.hasDefault then .never else q
-    | none => if r.deprecated || r.hasDefault then .never else .always
+    | none => if r.deprecated.truthy || r.hasDefault then .never else .always
   { name := name
     attname := r.attname
     aliases := accepted.filter (· != name)
@@ -252,7 +264,7 @@ def normField (r : RawField) : FieldMeta :=
     deps := r.deps
     title := r.title
     description := r.description
-    deprecated := r.deprecated
+    deprecated := r.deprecated.truthy
     exampleV := r.exampleV }
 
 /-- the generator's configuration: `JsonSchemaGenerator(t, mode=genMode, output=output)` -/
